@@ -43,6 +43,13 @@ class StateVector(BasisManaged):
 
     def __init__(self, dim=None, data=None):
 
+        # Set the currently used basis
+        cb = self.manager.get_current_basis()
+        self.set_current_basis(cb)
+        # unless it is the basis outside any context
+        if cb != 0:
+            self.manager.register_with_basis(cb, self)
+
         self._initialized = False
 
         # check and save data
